@@ -50,6 +50,9 @@ def targets(ctx):
     from google.protobuf import duration_pb2, timestamp_pb2
 
     c = corpus()
+    from . import _poison
+
+    _poison_fn = lambda: _poison.apply(c)  # noqa: E731
 
     def get_pair(data: bytes, msg: str, field: str, pos: str):
         """(seconds, nanos) as the reference decoder sees the field."""
@@ -258,4 +261,4 @@ def targets(ctx):
 
     from . import _seq
 
-    return [Target("conversions", ev, strategy=strat(), quick=1500, thorough=20000, time_quick=70), _seq.target("C15")]
+    return [Target("conversions", ev, poison=_poison_fn, strategy=strat(), quick=1500, thorough=20000, time_quick=70), _seq.target("C15")]
